@@ -525,7 +525,13 @@ func drvCgo(r *rand.Rand, n int) [][]Action {
 	others := []string{"x/d", "fmt", "y/d", "x/c", "unsafe"}
 	for i := 0; i < n; i++ {
 		st := &symtab{}
-		h := []Action{newAct("", []string{"", "pkg"}[r.Intn(2)], pres[r.Intn(len(pres))]...)}
+		pre := pres[r.Intn(len(pres))]
+		late := []string{} // preamble blocks that are supplied only after the File has been rendered once
+		if r.Intn(3) == 0 && len(pre) > 0 {
+			k := r.Intn(len(pre))
+			pre, late = pre[:k], pre[k:]
+		}
+		h := []Action{newAct("", []string{"", "pkg"}[r.Intn(2)], pre...)}
 		if r.Intn(3) == 0 {
 			h = append(h, Action{A: "ImportAlias", P: "C", N: []string{"c", "cgo", ".", "_c"}[r.Intn(4)]})
 		}
@@ -564,6 +570,12 @@ func drvCgo(r *rand.Rand, n int) [][]Action {
 			h = append(h, Action{A: "Add", Tree: varQ("C", st.sym("C"))})
 		}
 		h = append(h, Action{A: "Render"})
+		if len(late) > 0 {
+			for _, t := range late {
+				h = append(h, Action{A: "Preamble", N: t})
+			}
+			h = append(h, Action{A: "Render"})
+		}
 		if r.Intn(4) == 0 {
 			h = append(h, Action{A: "Render"})
 		}
